@@ -188,9 +188,16 @@ class Gen:
         toks = [m.upper() if rng.random() < 0.05 else m for m in mv]
         sep = b" "
         body = sep.join(t.encode() for t in toks)
-        line = b"position" + self.sp() + head.encode() + self.sp() + b"moves" + self.sp() + body
+        seps = [self.sp(), self.sp(), self.sp()]
+        line = b"position" + seps[0] + head.encode() + seps[1] + b"moves" + seps[2] + body
         if rng.random() < 0.1:
-            line += rng.choice(WS)
+            seps.append(rng.choice(WS))
+            line += seps[-1]
+        # a separator that Go's TrimSpace/Split does not treat as white space (a lone 0x85 / 0xA0 byte, a truncated
+        # UTF-8 sequence, U+200B) glues itself to a neighbouring token and changes it (`g2h1r\x85` is no longer the
+        # promotion g2h1r): the move list is then not the legal one it was generated from - precondition unknown
+        if any(w != b" " and w not in UNI_WS and w not in (b"  ", b"\t", b"\n", b"\r", b"\v", b"\f") for w in seps):
+            pre = None
         return line, cat, pre
 
     def go(self):
@@ -450,8 +457,9 @@ def main():
                 tainted = True
             if r_panic:
                 # `ApplyUciMove` on a move that is not legal in its position: outside the UCI precondition
-                if pre is None and l.startswith(b"position") and b"moves" in l and (
-                        ro.startswith("panic Applying uci move") or ro.startswith("panic Didn't find square")):
+                # a move list of unknown legality (mutated line) on which the real engine panics: counted as outside
+                # the precondition whatever the panic says - an illegal move can corrupt the position in many ways
+                if pre is None and l.startswith(b"position") and b"moves" in l:
                     pre = False
                     stats["  of which outside the UCI precondition (illegal move in a move list)"] += 1
                 real_panics.append((si, li, l, ro, pre, [x[0] for x in s[:li]]))
